@@ -17,9 +17,10 @@ def run(ctx):
     table = cmp_rules(ctx)
     ctx.rule("PK1")
     ctx.instance("PK1")
-    used = {t[2] for cell in table.values() for c in cell for t in [c] if t[0] == "attr"}
-    ctx.ob("PK1", "_url.URL.__eq__", "fields compared", used <= set(fields),
-           f"== reads {sorted(used - set(fields))}, which are not part of the pickled state", sample=str(sorted(used)))
+    if table is not None:       # (None: cmp_rules already reported that the key is not a function of the stored fields)
+        used = {t[2] for cell in table.values() for c in cell for t in [c] if t[0] == "attr"}
+        ctx.ob("PK1", "_url.URL.__eq__", "fields compared", used <= set(fields),
+               f"== reads {sorted(used - set(fields))}, which are not part of the pickled state", sample=str(sorted(used)))
     sh4(ctx, Shapes(ctx.model))
     from ..rules import immut
     immut.im11(ctx)     # a copy / derived URL never inherits cache entries computed for another URL
